@@ -485,6 +485,15 @@ class Nullness:
                     isinstance(n.ast.targets[0], _ast.Name):
                 self.assign_of_call[id(n.ast.value)] = (
                     path_of(n.ast.targets[0], n.frame), n)
+            elif isinstance(n.ast, _ast.Assign) and \
+                    isinstance(n.ast.value, _ast.Call) and \
+                    len(n.ast.targets) == 1 and \
+                    isinstance(n.ast.targets[0], (_ast.Tuple, _ast.List)) \
+                    and all(isinstance(x, _ast.Name)
+                            for x in n.ast.targets[0].elts):
+                # a, b = helper(): one value per element
+                self.assign_of_call[id(n.ast.value)] = (
+                    [path_of(x, n.frame) for x in n.ast.targets[0].elts], n)
 
     @staticmethod
     def _set(st, key, val):
@@ -513,6 +522,13 @@ class Nullness:
             cv = self._const(v, n.frame)
             if cv is not None:
                 return self._set(st, '$ret', cv)
+            if isinstance(v, _ast.Tuple) and isinstance(
+                    self.assign_of_call[id(n.frame.call)][0], list):
+                return self._set(st, '$ret', ('t', tuple(
+                    self._const(x, n.frame) or (
+                        'obj' if isinstance(x, (_ast.Tuple, _ast.List,
+                                                _ast.Dict)) else None)
+                    for x in v.elts)))
             if isinstance(v, (_ast.Call, _ast.Tuple, _ast.List, _ast.Dict)) \
                     or (isinstance(v, _ast.Constant) and v.value is not None):
                 # a call result is not known to be None; containers and
@@ -526,6 +542,14 @@ class Nullness:
             var, node = self.assign_of_call[id(n.ast.value)]
             r = self._get(st, '$ret')
             st = self._set(st, '$ret', None)
+            if isinstance(var, list):
+                vals = r[1] if isinstance(r, tuple) and r[0] == 't' and \
+                    len(r[1]) == len(var) else [None] * len(var)
+                for q, v2 in zip(var, vals):
+                    st = self._set(st, q, v2)
+                return st
+            if isinstance(r, tuple) and r[0] == 't':
+                r = 'obj'
             return self._set(st, var, r)
         if n.kind == 'stmt' and isinstance(n.ast, _ast.Assign):
             from ..facts import path_of
@@ -538,6 +562,15 @@ class Nullness:
             for t in n.ast.targets:
                 if isinstance(t, _ast.Name):
                     st = self._set(st, path_of(t, n.frame), val)
+                elif isinstance(t, (_ast.Tuple, _ast.List)):
+                    for x in _ast.walk(t):
+                        if isinstance(x, _ast.Name):
+                            st = self._set(st, path_of(x, n.frame), None)
+        if n.kind == 'iter':
+            from ..facts import path_of
+            for x in _ast.walk(n.ast.target):
+                if isinstance(x, _ast.Name):
+                    st = self._set(st, path_of(x, n.frame), None)
         if n.kind == 'test' and label in ('T', 'F'):
             r = self._eval(n.ast, n.frame, st)
             if r is not None and r != (label == 'T'):
